@@ -102,6 +102,102 @@ class DpoolGen:
     def random(self, rng, n, tier, focus=None):
         return mix_sparse(self._random(rng, n, tier, focus), rng)
 
+    def scale(self, rng, tier):
+        """few LONG or LARGE histories, all with `phys=quiet` (no page dumps; the Lean side runs the
+        accounting-only twin of the model):
+        (1) large sizes: pages above 2^24 bytes (where `float` no longer represents every size), decaying
+            and growing factors, requests one byte around the next page size;
+        (2) alignment boundaries {32, 64, 4096, 65536, 131072} in padded mode — excluded from the main
+            streams because of known finding M6 (absolute alignment); here the alignment oracle is the
+            relative reading and every other clause (accounting, containment, disjointness, NULL beyond the
+            size) is checked as usual;
+        (3) thousands of malloc/calloc/free/reset cycles with many expansions on small pools."""
+        out = []
+        quick = tier == "quick"
+        # ---- (1) large sizes
+        big = [(2**25, "0.5"), (2**24 + 8, "1"), (2**24 + 1, "1.5"), (2**25 + 3, "0.5"), (2**26, "0.5"), (2**24, "2")]
+        for size, exp in (big[:3] if quick else big):
+            sim = Sim(size, 0, 1, 1, exp)
+            ops = [f"new size={size} fixed=0 packed=1 ab=1 exp={exp} phys=quiet"]
+            for _ in range(rng.randint(6, 10)):
+                top = sim.sizes[-1]
+                nxt = int(top * float(exp))
+                remaining = top - sim.free
+                sz = rng.choice([nxt + 1, nxt, nxt - 1, remaining + 1, remaining, top - 1, 2**24 + 1, 2**24, 2**24 - 1,
+                                 (remaining // 2) | 1, 5])
+                sz = max(sz, 0)
+                if rng.random() < 0.2:
+                    ops.append(f"calloc 1 {sz}")
+                else:
+                    ops.append(f"malloc {sz}")
+                sim.alloc(sz)
+                if rng.random() < 0.15:
+                    ops.append(f"free idx={sim.n - 1}")
+                    ops.append(f"free off={sim.high}"); sim.release_off(sim.high)
+                if len(sim.sizes) > 4 or sim.sizes[-1] > 2**27:
+                    ops.append("pool_reset"); sim.reset()
+            ops += ["pool_reset", "malloc 7", "destroy"]
+            out.append(ops)
+        # the shape of the missed change: 2^25-byte pool, factor 0.5, the page nearly full, a request of 2^24 + 1
+        out.append(["new size=33554432 fixed=0 packed=1 ab=1 exp=0.5 phys=quiet", "malloc 20000000", "malloc 16777217",
+                    "malloc 16777216", "malloc 1", "malloc 16777215", "pool_reset", "malloc 33554431", "destroy"])
+        # ---- (2) large alignment boundaries, relative reading
+        abs_ = [32, 64, 4096, 65536, 131072]
+        for ab in (abs_ if quick else abs_ * 3):
+            k = rng.choice([2, 3, 4, 8])
+            size = ab * k + rng.choice([0, 0, 1, ab // 2])
+            fixed = rng.choice([0, 0, 1])
+            exp = rng.choice(["1", "2", "1.5"])
+            sim = Sim(size, fixed, 0, ab, exp)
+            ops = [f"new size={size} fixed={fixed} packed=0 ab={ab} exp={exp} phys=quiet"]
+            for _ in range(rng.randint(25, 45)):
+                top = sim.sizes[-1]
+                remaining = top - sim.free
+                r = rng.random()
+                if r < 0.7:
+                    sz = rng.choice([1, 3, 100, ab - 1, ab, ab + 1, 2 * ab, remaining, remaining - 1, remaining + 1, top - 1, 0])
+                    sz = max(sz, 0)
+                    if rng.random() < 0.25:
+                        ops.append(f"calloc 1 {sz}")
+                    else:
+                        ops.append(f"malloc {sz}")
+                    sim.alloc(sz)
+                elif r < 0.9:
+                    a = rng.choice([sim.high, sim.high, 0, sim.free, ab])
+                    ops.append(f"free off={a}"); sim.release_off(a)
+                else:
+                    ops.append("pool_reset"); sim.reset()
+                if len(sim.sizes) > 5:
+                    ops.append("pool_reset"); sim.reset()
+            ops.append("destroy")
+            out.append(ops)
+        # ---- (3) many cycles
+        for _ in range(2 if quick else 12):
+            N = rng.choice([16, 64, 255, 256, 257, 1000])
+            fixed, packed, ab, exp = rng.choice([(0, 1, 1, "1"), (0, 0, 8, "1.5"), (0, 0, 4, "1"), (1, 1, 1, "1"), (0, 1, 1, "2")])
+            sim = Sim(N, fixed, packed, ab, exp)
+            ops = [f"new size={N} fixed={fixed} packed={packed} ab={ab} exp={exp} obs=sparse phys=quiet"]
+            for i in range(rng.randint(1500, 2500)):
+                top = sim.sizes[-1]
+                remaining = top - sim.free
+                r = rng.random()
+                if r < 0.6:
+                    sz = rng.choice([0, 1, 2, 3, 5, 8, 13, remaining, max(remaining - 1, 0), remaining + 1, top - 1])
+                    if len(sim.sizes) > 8 or top > 60000:
+                        sz = min(sz, remaining)      # no further growth
+                    ops.append(f"malloc {sz}" if rng.random() < 0.7 else f"calloc 1 {sz}")
+                    sim.alloc(sz)
+                elif r < 0.9:
+                    a = rng.choice([sim.high, sim.high, sim.high, 0, sim.free])
+                    ops.append(f"free off={a}"); sim.release_off(a)
+                else:
+                    ops.append("pool_reset"); sim.reset()
+                if i % 300 == 299:
+                    ops.append("observe")
+            ops += ["observe", "destroy"]
+            out.append(ops)
+        return out
+
     def _small_scope(self, tier, focus=None):
         out = []
         sizes = (1, 4, 9) if tier == "quick" else (0, 1, 2, 4, 8, 9, 16)
@@ -184,6 +280,11 @@ class DpoolGen:
                         sz = rng.choice([remaining, remaining + 1, top, top + 1, max(top - 1, 0), 2**31, 2**32, 2**32 + 1, 2**63, SIZE_MAX - 1, SIZE_MAX, 0])
                     else:
                         sz = rng.choice([0, 1, 1, 2, 3, 4, 5, 7, 8, 8, 13, 16, remaining, max(remaining - 1, 0), max(top - 1, 0)])
+                    nxt = int(top * sim.exp)
+                    if not sim.fixed and nxt > 2**16 and sz < top and sz + sim.pad(sz) > remaining and sz + sim.pad(sz) <= nxt:
+                        sz = max(remaining - sim.pad(remaining), 0) if remaining > 0 else 0   # no page above 64 KiB here
+                        if sz + sim.pad(sz) > remaining:
+                            sz = 0
                     fail = " fail=1" if rng.random() < p_fail else ""
                     if rng.random() < 0.3:
                         if sz >= 2**31:
